@@ -447,6 +447,12 @@ func (w *Whisper) readHeader() error {
 		}
 
 		wantSize := werr.WantedBufSize
+		// Do not allocate for a header which claims to be larger than the file.
+		if st, err := w.file.Stat(); err != nil {
+			return err
+		} else if int64(wantSize) > st.Size() {
+			return fmt.Errorf("header size %d is larger than file size %d", wantSize, st.Size())
+		}
 		if wantSize > len(buf) {
 			buf = make([]byte, wantSize)
 		}
